@@ -586,7 +586,7 @@ def replay(ob):
                              "partial increment.  An embedder or a future pacing change can produce it; the collector code itself allows any budget."))
             if s['still'] is False:
                 return True, extra
-            return (False if s['still'] else None), extra
+            return None, extra   # a fixed scenario: it can confirm, it cannot contradict the verifier's counterexample
         finally:
             sc.cleanup()
     if "C06" in ob.props and ("process_gray" in ob.id or "maybe_gc" in ob.id or "scenario" in ob.id or "no_reachable" in ob.id):
@@ -601,7 +601,7 @@ def replay(ob):
             extra['native_scenario'] = s['line']
             if s['still'] is False:
                 return True, extra
-            return (False if s['still'] else None), extra
+            return None, extra   # a fixed scenario: it can confirm, it cannot contradict the verifier's counterexample
         finally:
             sc.cleanup()
     return None, dict(note="no replay recipe for this obligation")
